@@ -247,6 +247,80 @@ def _union(own, parent, extra=None):
     return {k: sorted(v) for k, v in out.items()}
 
 
+class ExportQualifiers(Case):
+    """export_qualifiers of a feature / transcript / gene / feature collection: the key-wise set union of the
+    object's own qualifiers, the qualifiers handed down by the parent (where the method takes them) and the object's
+    own top-level identifiers under their BioCantor keys - also when one of those keys is ALREADY present in the own
+    or parent qualifiers with another value (a collision keeps both values).  Complete finite domain; executed twice
+    on the same object (the second call must see the same inputs: nothing is written back)."""
+    props = ("C18", "C11")
+    module = "gene.collections"
+
+    KINDS = {
+        # kind: (func, constructor call with {q}/{a}/{b}, takes parent qualifiers, keys of the two identifiers, fixed extras)
+        "feature": ("gene.feature.FeatureInterval.export_qualifiers",
+                    "FeatureInterval([1], [5], Strand.PLUS, qualifiers=dict(q), feature_name=a, feature_id=b)",
+                    True, ("feature_name", "feature_id"), {}),
+        "transcript": ("gene.transcript.TranscriptInterval.export_qualifiers",
+                       "TranscriptInterval([1], [5], Strand.PLUS, qualifiers=dict(q), transcript_symbol=a, transcript_id=b)",
+                       True, ("transcript_name", "transcript_id"), {"transcript_biotype": "unspecified"}),
+        "gene": ("gene.gene.GeneInterval.export_qualifiers",
+                 "GeneInterval([TranscriptInterval([1], [5], Strand.PLUS)], qualifiers=dict(q), gene_symbol=a, gene_id=b)",
+                 False, ("gene_name", "gene_id"), {"gene_biotype": "unspecified"}),
+        "feature collection": ("gene.feature.FeatureIntervalCollection.export_qualifiers",
+                               "FeatureIntervalCollection([FeatureInterval([1], [5], Strand.PLUS)], qualifiers=dict(q), "
+                               "feature_collection_name=a, feature_collection_id=b)",
+                               False, ("feature_collection_name", "feature_collection_id"), {}),
+    }
+
+    def __init__(self, kind):
+        self.kind = kind
+        self.func, ctor, self.takes_parent, self.keys, self.extras = self.KINDS[kind]
+        self.name = f"export_qualifiers[{kind}: own / parent qualifiers colliding with the identifier keys]"
+        arg = "{k: set(v) for k, v in pq}" if self.takes_parent else ""
+        self.call = ("(lambda o, par: (lambda r1, r2: ({k: sorted(v) for k, v in r1.items()}, "
+                     "{k: sorted(v) for k, v in r2.items()}, {k: sorted(v) for k, v in par.items()}))"
+                     f"(o.export_qualifiers({'par' if self.takes_parent else ''}), "
+                     f"o.export_qualifiers({'par' if self.takes_parent else ''})))"
+                     f"({ctor}, {{k: set(v) for k, v in pq}})")
+        self.ensures = {
+            "keywise-union-of-own-parent-and-identifiers": lambda i, r: r[0] == self._spec(i),
+            "second-call-gives-the-same": lambda i, r: r[1] == r[0],
+            "parent-dictionary-unchanged": lambda i, r: r[2] == {k: sorted(set(v)) for k, v in i.pq},
+        }
+
+    def _spec(self, i):
+        out = {}
+        for k, v in list(i.q) + (list(i.pq) if self.takes_parent else []):
+            out.setdefault(k, set()).update(str(x) for x in v)
+        for key, val in list(zip(self.keys, (i.a, i.b))) + list(self.extras.items()):
+            if val:
+                out.setdefault(key, set()).add(val)
+        return {k: sorted(v) for k, v in out.items()}
+
+    def inputs(self, S):
+        q = [(k, list(v)) for k, v in S.const("q")]
+        pq = [(k, list(v)) for k, v in S.const("pq")]
+        return NS(q=q, pq=pq, a=S.const("a"), b=S.const("b"),
+                  FeatureInterval=S.cls("gene.feature.FeatureInterval"),
+                  FeatureIntervalCollection=S.cls("gene.feature.FeatureIntervalCollection"),
+                  TranscriptInterval=S.cls("gene.transcript.TranscriptInterval"),
+                  GeneInterval=S.cls("gene.gene.GeneInterval"), Strand=S.cls("location.strand.Strand"))
+
+    def ground(self):
+        k1, k2 = self.keys
+        own = [[], [[k1, ["own"]]], [[k2, ["x", "own"]]], [["note", ["n"]], [k1, ["N"]]], [["note", ["n"]]]]
+        par = [[], [[k1, ["parent"]]], [[k2, ["N"]], ["note", ["m"]]]] if self.takes_parent else [[]]
+        for q in own:
+            for pq in par:
+                for a in (None, "N", ""):
+                    for b in (None, "I"):
+                        yield {"q": q, "pq": pq, "a": a, "b": b}
+
+    def observe(self, r):
+        return [dict(x) for x in r]
+
+
 class FilterAndSort(Case):
     """io/gff3/parser.py:filter_and_sort_qualifiers (module not importable here: AST in the verifier, mechanically
     extracted FunctionDef under CPython): the qualifiers that ARE BioCantor identifier terms or GFF3 reserved terms are
@@ -308,7 +382,7 @@ def _kept(q):
     return {k: sorted(v) for k, v in q if not _is_reserved(k)}
 
 
-CASES = [FilterAndSort(), MergeQualifiersMethod(), ExtractNameId("extract_feature_name_id[all orderings of all subsets <= 3 keys, 2 spellings + look-alikes]",
+CASES = [FilterAndSort(), MergeQualifiersMethod(), *[ExportQualifiers(k) for k in ExportQualifiers.KINDS], ExtractNameId("extract_feature_name_id[all orderings of all subsets <= 3 keys, 2 spellings + look-alikes]",
                        _all_orderings_small),
          ExtractNameId("extract_feature_name_id[all 7! orderings of the name keys; 7! of mixed name/id/look-alike]",
                        _all_orderings_name_keys),
